@@ -34,11 +34,12 @@ impl FilterBits {
     }
     /// Get the bit mask value of the filter.
     pub fn mask(self) -> u32 {
-        !0 >> (32 - self.0)
+        // Same result as the plain shift, but without overflow for bits outside 1-31.
+        (!0u32).wrapping_shr(32u32.wrapping_sub(self.0))
     }
     /// Get the average target size from the filter.
     pub fn chunk_target_average(self) -> u32 {
-        1 << (self.0 + 1)
+        1u32.wrapping_shl(self.0.wrapping_add(1))
     }
     /// Get number of bits set in the filter.
     pub fn bits(self) -> u32 {
